@@ -25,7 +25,7 @@ func init() {
 			"on base and overlay features); distinct = base + history; non-trivial = the history edits a base feature at least twice with different key kinds",
 		Assumptions: []string{"generated AddFeature replacements keep geometry so they are always valid (rejections are C13)",
 			"points whose only tag is their geometry tag are optional in search results"},
-		Quick: 320, Thorough: 40000,
+		Quick: 320, Thorough: 8000,
 		Required: []string{"base_basic", "base_mutable-overlay", "base_snapshot", "base_compact", "plain_then_searchable", "searchable_then_plain",
 			"remove_modified_only", "overwrite_then_remove", "readd_feature", "ops"},
 		Run: func(c *core.Ctx) {
